@@ -468,6 +468,54 @@ def directed():
         {k: (v.get("cls", v.get("str")) if isinstance(v, dict) else v)
          for k, v in l.items() if k in ("kq", "dq", "aq", "bidir")},
         sort_keys=True)), "seed": 1, "world": _single(l, kind), "ops": ops})
+  # every layer class with STRING-configured quantizers in every role, after an
+  # interrupted noise schedule changed the live quantizer objects: the layer
+  # config must describe the live objects, not the constructor arguments
+  S = {"str": "quantized_bits(4,0,1,alpha=1.0)"}
+  S6 = {"str": "quantized_bits(6,2,1)"}
+  SA = {"str": "quantized_relu(4,1)"}
+  string_layers = [
+      ("vec", {"t": "QDense", "units": 3, "use_bias": True, "kq": S, "bq": S6,
+               "aq": SA}),
+      ("img", {"t": "QConv2D", "filters": 2, "kernel": 2, "strides": 1,
+               "padding": "same", "use_bias": True, "kq": S, "bq": S6,
+               "aq": SA}),
+      ("img", {"t": "QDepthwiseConv2D", "kernel": 2, "strides": 1,
+               "padding": "same", "depth_multiplier": 1, "use_bias": True,
+               "dq": S, "bq": S6}),
+      ("img", {"t": "QSeparableConv2D", "filters": 2, "kernel": 2,
+               "padding": "same", "use_bias": True, "dq": S, "pq": S, "bq": S6}),
+      ("seq", {"t": "QConv1D", "filters": 2, "kernel": 2, "padding": "same",
+               "use_bias": True, "kq": S, "bq": S6}),
+      ("seq", {"t": "QSeparableConv1D", "filters": 2, "kernel": 2,
+               "padding": "same", "use_bias": True, "dq": S, "pq": S,
+               "bq": S6}),
+      ("seq", {"t": "QSimpleRNN", "units": 2, "return_sequences": False,
+               "use_bias": True, "kq": S, "rq": S, "bq": S6, "sq": S6}),
+      ("seq", {"t": "QLSTM", "units": 2, "return_sequences": False,
+               "use_bias": True, "kq": S, "rq": S, "bq": S6, "sq": S6}),
+      ("seq", {"t": "QGRU", "units": 2, "return_sequences": False,
+               "use_bias": True, "kq": S, "rq": S, "bq": S6, "sq": S6}),
+      ("seq", {"t": "QLSTM", "units": 2, "return_sequences": False,
+               "use_bias": True, "kq": S, "rq": S, "bq": S6, "sq": None,
+               "bidir": True}),
+      ("img", {"t": "QAveragePooling2D", "pool": 2, "avq": S6, "aq": SA}),
+      ("img", {"t": "QGlobalAveragePooling2D", "avq": S6, "aq": SA}),
+      ("img", {"t": "QScaleShift", "use_bias": True, "wq": S, "bq": S6}),
+      ("vec", {"t": "QBatchNormalization", "center": True, "scale": True,
+               "gq": S6, "beq": S6, "mq": S6,
+               "vq": {"str": "quantized_bits(6,2,1,keep_negative=False)"}}),
+  ]
+  for kind, l in string_layers:
+    for ste in (True, False):
+      out.append({"label": "directed:string-quantizers-after-interrupted-"
+                           "schedule:%s%s:ste%d" % (
+                               l["t"], ":bidir" if l.get("bidir") else "", ste),
+                  "seed": 1, "world": _single(l, kind), "ops": [
+                      {"k": "SCHED", "steps": 2, "stop_mid": True,
+                       "use_ste": ste},
+                      {"k": "RESTART", "route": "json"},
+                      {"k": "RESTART", "route": "h5_fileobj"}]})
   # every quantizer class of the custom-object table inside a layer config
   qclasses = [
       ("quantized_bits", {"bits": 4, "integer": 1}),
